@@ -191,6 +191,9 @@ func kidFor(tag string, r *rand.Rand) (string, bool) {
 	case "extra-member": // a member this version of the decoder does not know (as "usage" once was): still a valid KeyID
 		s := gen.YSSHCAKeyID(gen.KeyIDSpec{HW: true, Touch: 1, TransID: tid, Prins: []string{"u"}})
 		return strings.Replace(s, `"ver":1`, `"ver":1,"issuedBy":"ca-7","x":{"y":[1,2]}`, 1), true
+	case "usage-other": // the optional "usage" member with a value a newer CA may introduce: still a valid KeyID
+		s := gen.YSSHCAKeyID(gen.KeyIDSpec{HW: true, Touch: 1, TransID: tid, Prins: []string{"u"}})
+		return strings.Replace(s, `"ver":1`, `"usage":`+[]string{"1", "2", "7", "-1", "255"}[r.Intn(5)]+`,"ver":1`, 1), true
 	case "near-ver257": // 257 = 1 mod 256; 65281 = 1 mod 256 too
 		s := gen.YSSHCAKeyID(gen.KeyIDSpec{HW: true, Touch: 1, TransID: tid, Prins: []string{"u"}})
 		return strings.Replace(s, `"ver":1`, `"ver":`+[]string{"257", "513", "65281"}[r.Intn(3)], 1), false
@@ -232,7 +235,7 @@ func kidFor(tag string, r *rand.Rand) (string, bool) {
 }
 
 // AllKIDs is the full list of KeyID tags.
-var AllKIDs = []string{"touch", "touchless", "firefighter", "inagent", "nonce", "headless", "unknown-type", "regular", "null-prins", "empty-prins", "many-prins", "extra-member", "near-ver257", "near-missing-field", "near-ver2", "near-ver0", "near-conflict", "near-conflict-nonce", "near-conflict-headless-nonce", "near-conflict-headless-ff", "near-conflict-headless-touch", "near-conflict-nonce-touch", "near-trailing-text", "near-two-objects", "near-leading-text", "near-case", "empty", "text"}
+var AllKIDs = []string{"touch", "touchless", "firefighter", "inagent", "nonce", "headless", "unknown-type", "regular", "null-prins", "empty-prins", "many-prins", "extra-member", "usage-other", "near-ver257", "near-missing-field", "near-ver2", "near-ver0", "near-conflict", "near-conflict-nonce", "near-conflict-headless-nonce", "near-conflict-headless-ff", "near-conflict-headless-touch", "near-conflict-nonce-touch", "near-trailing-text", "near-two-objects", "near-leading-text", "near-case", "empty", "text"}
 
 // NewMaterial draws keys and certificates.
 func NewMaterial(r *rand.Rand, cfg Config) *Material {
